@@ -1232,6 +1232,28 @@ def run(ctx):
         ctx.broken('correspondence', 'qbe-run-vs-reference', what + '\n' + case_source(c))
     if R.qbe_oracle:
         ctx.ob('automatic objects dumped under Qbe.run (shared IL semantics) = reference on %d objects' % R.stats.get('qbe_run', 0), not R.qbe_bad)
+    # ---- directed: pointers initialised with string literals must refer to storage holding exactly that literal
+    #      (wide literals of equal length with a common prefix; narrow vs wide literal with the same first bytes)
+    ptr_src = ('int *w1 = L"alpha", *w2 = L"alias"; unsigned short *h1 = u"abcdefg", *h2 = u"abcdxyz"; unsigned *U1 = U"xyz12345", *U2 = U"xyz54321";\n'
+               'char *c1 = "a"; unsigned short *c2 = u"a"; char *c3 = "abcd", *c4 = "abce";\n')
+    want_ptr = {'w1': [97, 108, 112, 104, 97, 0], 'w2': [97, 108, 105, 97, 115, 0], 'h1': [97, 98, 99, 100, 101, 102, 103, 0], 'h2': [97, 98, 99, 100, 120, 121, 122, 0],
+                'U1': [120, 121, 122, 49, 50, 51, 52, 53, 0], 'U2': [120, 121, 122, 53, 52, 51, 50, 49, 0], 'c1': [97, 0], 'c2': [97, 0], 'c3': [97, 98, 99, 100, 0], 'c4': [97, 98, 99, 101, 0]}
+    rc, out, err = ctx.qbe(ptr_src)
+    refs = dict(re.findall(r'data \$(\w+) = align 8 \{ l \$(\.Lstring\.\d+), \}', out))
+    bodies = dict(re.findall(r'data \$(\.Lstring\.\d+) = align \d+ \{ (.*?) \}', out))
+
+    def elems(body):
+        m = re.match(r'b "(.*)",', body)
+        if m:
+            return [int(x[1:], 8) if x.startswith('\\') else ord(x) for x in re.findall(r'\\[0-7]{3}|.', m.group(1))]
+        return [int(x) for x in re.findall(r'\d+', body)]
+    for nm, exp in want_ptr.items():
+        got = elems(bodies.get(refs.get(nm, ''), '')) if rc == 0 else None
+        if got != exp:
+            ctx.violation('pointer %s initialised with a string literal refers to storage holding %r, expected %r' % (nm, got, exp),
+                          json.dumps(dict(what='string literal address constant', key='string-literal-address', target='x86_64-sysv', auto=False, source=ptr_src, corpus=True), indent=1),
+                          'json', 'string-literal-address')
+            break
     total = R.stats['static'] + R.stats['auto']
     cov = dict(evaluations=total + nreg + nmal, malformed=nmal, distinct_nontrivial=len(R.nontrivial),
                rule='distinct (target, source) cases whose initializer uses a designator, brace elision, a bit-field, a string, an address constant, '
